@@ -56,6 +56,13 @@ def setup(ctx):
     frozen.install(ctx)
 
 
+def under_declared_keys(obj, seed):
+    """an osu chart built from objects keeps the default CircleSize 4 whatever columns are in use"""
+    if type(obj).__name__ == "OsuMap" and seed % 5 == 0:
+        obj.circle_size = 4.0
+    return obj
+
+
 def alias_probe(ctx, op, inp, result):
     """result is documented as a copy of (part of) inp: mutate it, inp must not move."""
     import numpy as np
@@ -155,7 +162,7 @@ def run(ctx, case):
 
     with ctx.quiet():
         try:
-            obj = charts.apply_history(charts.build(case["spec"]), case["history"])
+            obj = under_declared_keys(charts.apply_history(charts.build(case["spec"]), case["history"]), len(case["ops"]) + len(case["history"]))
         except Exception:
             ctx.counters["c14|build_failed"] += 1
             return
